@@ -22,7 +22,7 @@ from . import c01
 
 PROPERTY = "C08"
 LEVEL = "exploration"
-QUICK_RUNS = 5000
+QUICK_RUNS = 15000
 THOROUGH_RUNS = 150_000
 QUICK_BUDGET_S = 100
 BATCH = 25
